@@ -44,6 +44,7 @@ type OpB struct {
 	Cmd     string   `json:"cmd,omitempty"`   // staged: kill clear readd list dup-add kill-other
 	Go      bool     `json:"go,omitempty"`    // staged: the client goes on with its next protocol step after the command
 	Twin    bool     `json:"twin,omitempty"`  // pf: two forwards answer before the queue is fetched
+	RcvBuf  int      `json:"rcvbuf,omitempty"` // connect: SO_RCVBUF of the client socket, set before it connects (0 = system default)
 }
 
 type CaseB struct {
@@ -439,7 +440,7 @@ func (x *runB) opConnect(op OpB) (*core.Violation, string) {
 		}
 	}
 	port := x.f.live[op.Sel%len(x.f.live)]
-	c0, err := dialProxy(port)
+	c0, err := dialProxyBuf(port, op.RcvBuf)
 	if err != nil {
 		return core.V("b|connect|dial-refused", "cannot connect to live proxy %s: %v", port, err), ""
 	}
